@@ -36,10 +36,21 @@ def condense_event(pp, tid, A, plus, prec, via):
     text = anngen.render(A)
     src = text if via == "str" else anngen.build(pp, A)
     o, res = call(lambda: pp.condense_to_mass_mods(src, include_plus=plus, precision=prec))
+    if o == "ret" and not isinstance(res, str):
+        o, res = "ret_not_a_string:" + type(res).__name__, ""
     ev = {"tid": tid, "k": "condense", "A": A, "text": text, "plus": plus, "prec": prec, "via": via, "out": o,
-          "res": res if o == "ret" else "", "parsedOk": False, "parsed": anngen.empty(""), "massIn": [0, 0], "massOut": [0, 0]}
+          "res": res if o == "ret" else "", "parsedOk": False, "parsed": anngen.empty(""), "massIn": [0, 0], "massOut": [0, 0],
+          "again": "", "argText": text}
     if o != "ret":
         return ev
+    if via == "ann":
+        # the annotation object that was passed in is unchanged and gives the same answer a second time
+        o_a, again = call(lambda: pp.condense_to_mass_mods(src, include_plus=plus, precision=prec))
+        ev["again"] = again if o_a == "ret" and isinstance(again, str) else "raised:" + o_a
+        o_t, t_ = call(src.serialize)
+        ev["argText"] = t_ if o_t == "ret" else "raised:" + o_t
+    else:
+        ev["again"] = res
     o2, b = call(pp.parse, res)
     if o2 == "ret" and isinstance(b, pp.ProFormaAnnotation):
         ev["parsedOk"] = True
